@@ -21,6 +21,7 @@
 //---------------------------------------------------------------------------
 
 #include "config.h"
+#include "verifev.h"
 
 #include <cstddef>
 #include <cstdint>
@@ -162,8 +163,13 @@ public:
         std::string macroName;
         std::size_t hash{};
         bool thisAndNextLine{}; // Special case for backwards compatibility: { // cppcheck-suppress something
+#ifdef DANMAR_CPPCHECK_VERIF
+        VERIF_TRACKED(bool) matched{}; // verification hook: accesses to the flags of a list entry are logged
+        VERIF_TRACKED(bool) checked{};
+#else
         bool matched{}; /** This suppression was fully matched in an isSuppressed() call */
         bool checked{}; /** This suppression applied to code which was being analyzed but did not match the error in an isSuppressed() call */
+#endif
         bool isInline{};
         bool isPolyspace{};
 
